@@ -1,5 +1,6 @@
 SPECIFICATION Spec
 CONSTANT Depth = 3
 CONSTANT PeerHandleBase = 0
+CONSTANT Side = "client"
 INVARIANT Emit
 CHECK_DEADLOCK FALSE
